@@ -55,7 +55,9 @@ func runC20(o *Out, r *rand.Rand) {
 		rounds = 12
 	}
 	id := 900000
-	for _, so := range []srvOpts{{}, {pool: true}} {
+	// (AsyncWrite hands the encoded frame buffer to another goroutine: it must stay that writer's
+	// until the write is done)
+	for _, so := range []srvOpts{{}, {pool: true}, {async: true}, {async: true, pool: true}} {
 		rig, err := newSrvRig(so)
 		if err != nil {
 			o.Violate("srv.rig", "cannot start the server: "+err.Error(), nil)
